@@ -89,6 +89,11 @@ class Walk:
         outs = set()
         for st, kind in self.block(loop.body, {'D': v, 'loc': {}}):
             outs.add((kind, st['D']))
+        # leaving the loop on an uninterpreted test before the count was
+        # touched (``if parent == prev_parent: break`` - the root is
+        # reached) is the loop's own termination, not a decision of the walk
+        if len(outs) > 1:
+            outs.discard(('break', v))
         return outs
 
     def touches(self, node):
